@@ -221,7 +221,7 @@ def finish (s : Scn) (r : Run) : String :=
   | some w => s!"run model-stuck {w}"
   | none =>
     match r.st.received with
-    | [] => s!"run result=hang once=0 cb_after=0 leaked={(r.st.tasks.filter Task.live).length} held=- drained={drained}"
+    | [] => s!"run result=hang once=0 cb_after=0 leaked={(r.st.tasks.filter Task.live).length + (if r.st.runner = .done then 0 else 1)} held=- drained={drained}"
     | e :: _ =>
       let once := if (next P .recv r.st).isNone then 1 else 0
       let leaked := (r.st.tasks.filter Task.live).length + (if r.st.runner = .done then 0 else 1)
@@ -276,7 +276,7 @@ def predict (s : Scn) : String :=
         let r := closes r 2
         if r.st.panicked then "run panic" else
         s!"run result={errName e} once={once} cb_after={r.st.cbAfter} leaked={leaked} held={held} drained=-"
-      | none, [] => s!"run result=hang once=0 cb_after=0 leaked={(r.st.tasks.filter Task.live).length} held={held} drained=-"
+      | none, [] => s!"run result=hang once=0 cb_after=0 leaked={(r.st.tasks.filter Task.live).length + (if r.st.runner = .done then 0 else 1)} held={held} drained=-"
     else setHeld (finish s r) "-"
   else if s.fault = "stall" ∧ inRange then
     -- the body never arrives: the harness calls Close once the stalling request is out
